@@ -7,13 +7,17 @@ package main
 // ReplicaChecker / RuleChecker adds afterwards sits on a store that is Up according to the acknowledged record.
 
 import (
+	"context"
 	"fmt"
+	"time"
 
 	"github.com/pingcap/kvproto/pkg/metapb"
 	"github.com/tikv/pd/pkg/cache"
 	"github.com/tikv/pd/server/core"
+	"github.com/tikv/pd/server/schedule"
 	"github.com/tikv/pd/server/schedule/checker"
 	"github.com/tikv/pd/server/schedule/operator"
+	"go.etcd.io/etcd/clientv3"
 
 	"pdverif/internal/life10"
 	"pdverif/internal/res"
@@ -87,4 +91,120 @@ func runLifecycles(R *res.Result, seed uint64, rounds int) {
 			}
 		}
 	}
+}
+
+// ---- temporary (TTL) settings across a REAL leader change ----
+// A temporary setting (schedule.replica-schedule-limit = 0, the documented way to pause replica scheduling) is stored through
+// Server.SaveTTLConfig; shortly before it runs out the leadership is reset: the member steps down, campaigns again and
+// campaignLeader restores the temporary settings from etcd (PersistOptions.LoadTTLFromEtcd).  ORACLE: once the key is gone from
+// etcd (read with a plain client) the setting is over for every observer: the option has its persisted value again and
+// CheckerController.CheckRegion proposes the repair of an under-replicated region.
+
+type ttlOutcome struct {
+	counts []string
+	notes  []string
+	viol   []res.Violation
+}
+
+func runTTLHistory(seed uint64) (out ttlOutcome) {
+	note := func(s string) { out.notes = append(out.notes, "temporary-setting history: "+s) }
+	w, err := life10.Start()
+	if err != nil {
+		note("skipped, real server did not start: " + err.Error())
+		return
+	}
+	defer w.Close()
+	const n = 4
+	w.S.GetPersistOptions().SetPlacementRuleEnabled(false)
+	w.Reset(n)
+	ctx, cancel := context.WithCancel(context.Background())
+	defer cancel()
+	meta := &metapb.Region{Id: 7000, StartKey: []byte("a"), EndKey: []byte("b"), RegionEpoch: &metapb.RegionEpoch{ConfVer: 5, Version: 5},
+		Peers: []*metapb.Peer{{Id: 7001, StoreId: 1}, {Id: 7002, StoreId: 2}}}
+	region := core.NewRegionInfo(meta, meta.Peers[0], core.SetApproximateSize(10), core.SetApproximateKeys(100))
+	check := func() []*operator.Operator {
+		w.S.GetBasicCluster().PutRegion(region)
+		for i := uint64(1); i <= n; i++ {
+			_ = w.Heartbeat(i, 10)
+		}
+		rc := w.S.GetRaftCluster()
+		cc := schedule.NewCheckerController(ctx, rc, rc.GetRuleManager(), rc.GetOperatorController())
+		return cc.CheckRegion(region)
+	}
+	if len(check()) == 0 {
+		note("skipped, CheckRegion proposes nothing for the under-replicated region before the pause")
+		return
+	}
+	const key = "schedule.replica-schedule-limit"
+	persisted := w.S.GetPersistOptions().GetScheduleConfig().ReplicaScheduleLimit
+	asked := 5 * time.Second
+	if err := w.S.SaveTTLConfig(map[string]interface{}{key: 0}, asked); err != nil {
+		note("skipped, SaveTTLConfig: " + err.Error())
+		return
+	}
+	if w.S.GetPersistOptions().GetReplicaScheduleLimit() != 0 || len(check()) != 0 {
+		note("skipped, the temporary setting is not in force after SaveTTLConfig")
+		return
+	}
+	client := w.S.GetClient()
+	remaining := func() (time.Duration, bool) {
+		resp, err := client.Get(ctx, "/config/ttl/"+key)
+		if err != nil || len(resp.Kvs) == 0 {
+			return 0, false
+		}
+		t, err := client.TimeToLive(ctx, clientv3.LeaseID(resp.Kvs[0].Lease))
+		if err != nil || t.TTL < 0 {
+			return 0, false
+		}
+		return time.Duration(t.TTL) * time.Second, true
+	}
+	// wait until about 2 s are left, then the leadership changes
+	for {
+		rem, ok := remaining()
+		if !ok {
+			note("skipped, the setting ran out before the leader change")
+			return
+		}
+		if rem <= 2*time.Second {
+			break
+		}
+		time.Sleep(100 * time.Millisecond)
+	}
+	w.S.GetMember().ResetLeader()
+	time.Sleep(200 * time.Millisecond)
+	dl := time.Now().Add(20 * time.Second)
+	for !(w.S.GetMember().IsLeader() && w.S.GetRaftCluster() != nil && w.S.GetRaftCluster().IsRunning()) {
+		if time.Now().After(dl) {
+			note("skipped, the member did not lead again within 20 s")
+			return
+		}
+		time.Sleep(20 * time.Millisecond)
+	}
+	_, loaded := remaining()
+	out.counts = append(out.counts, fmt.Sprintf("ttl:setting-still-in-etcd-at-the-new-term=%v", loaded))
+	// ... until the key is gone from etcd
+	dl = time.Now().Add(15 * time.Second)
+	for {
+		if _, ok := remaining(); !ok {
+			break
+		}
+		if time.Now().After(dl) {
+			note("skipped, the key did not expire within 15 s")
+			return
+		}
+		time.Sleep(100 * time.Millisecond)
+	}
+	time.Sleep(400 * time.Millisecond)
+	out.counts = append(out.counts, "ttl:history")
+	replay := map[string]interface{}{"temporary-setting": key + "=0", "asked-ttl-seconds": asked.Seconds(), "leader-change-with-seconds-left": 2}
+	hist := fmt.Sprintf("%s = 0 stored for %v, leadership reset with about 2 s left, the key has expired in etcd", key, asked)
+	if got := w.S.GetPersistOptions().GetReplicaScheduleLimit(); got != persisted {
+		out.viol = append(out.viol, res.Violation{Sig: "C10:expired-temporary-setting-still-in-force",
+			Desc: fmt.Sprintf("%s; the leader still works with replica-schedule-limit %d (persisted value %d)", hist, got, persisted), Replay: replay})
+	}
+	if ops := check(); len(ops) == 0 {
+		out.viol = append(out.viol, res.Violation{Sig: "C10:lifecycle:no-repair-although-target-exists",
+			Desc: hist + "; CheckerController.CheckRegion proposes nothing for region {1,2} with max-replicas 3 although stores 3 and 4 are up, empty and have just reported", Replay: replay})
+	}
+	return
 }
